@@ -104,9 +104,10 @@ class Merge(Expr):
             predicate_columns = self._predicate_columns(predicate)
             if predicate_columns is None:
                 return False
-            if predicate_columns.issubset(self.left.columns):
+            side = self._predicate_side(predicate_columns)
+            if side == "left":
                 return self.how in ("left", "inner", "leftsemi")
-            elif predicate_columns.issubset(self.right.columns):
+            elif side == "right":
                 return self.how in ("right", "inner")
             elif len(predicate_columns) > 0:
                 return False
@@ -119,6 +120,29 @@ class Merge(Expr):
                 x()._name for x in dependents[self._name] if x() is not None
             }
         return False
+
+    def _predicate_side(self, predicate_columns):
+        """The input that holds the columns of the predicate under these names
+
+        A column that both inputs have and that got a suffix on one side only
+        is, under its plain name, the column of the other side.
+        """
+        left_suffix, right_suffix = self.suffixes[0], self.suffixes[1]
+
+        def renamed(col, suffix, other):
+            return (
+                suffix != "" and f"{col}{suffix}" in self.columns and col in other.columns
+            )
+
+        if predicate_columns.issubset(self.left.columns) and not any(
+            renamed(col, left_suffix, self.right) for col in predicate_columns
+        ):
+            return "left"
+        if predicate_columns.issubset(self.right.columns) and not any(
+            renamed(col, right_suffix, self.left) for col in predicate_columns
+        ):
+            return "right"
+        return None
 
     def _predicate_columns(self, predicate):
         if isinstance(predicate, (Projection, Unaryop, Isin)):
